@@ -151,3 +151,38 @@ let job_tcheck (job : Sx.t) : string =
      | _ -> (match Sx.try_field job "ast" with None -> "(same-reject parse)" | Some _ -> "(parse-differs)"))
   | Util.Ok (Scan.SErrors _) -> (match Sx.try_field job "ast" with None -> "(same-reject scan)" | Some _ -> "(parse-differs)")
   | _ -> "(crash)"
+
+(* `parg` jobs: the model of parse_arg (coq/Check/LitParse.v literal_parse_program) on the parser model's program:
+   (parg id (src "program") (names "n0" ..) (arg i "text") ..) -> per argument (ok LIT) | (err) | (outside) | (nofuel) *)
+let job_parg (job : Sx.t) : string =
+  let text = Sx.bytes (Stdlib.List.hd (Sx.args (Sx.field job "src"))) in
+  let names = Stdlib.List.map Sx.bytes (Sx.args (Sx.field job "names")) in
+  let tbl = Hashtbl.create 64 in
+  Stdlib.List.iteri (fun i s -> Hashtbl.replace tbl s i) names;
+  let fresh = ref 1000000 in
+  let intern (s : BinNums.coq_N list) : BinNums.coq_N =
+    let k = str_of_codes s in
+    match Hashtbl.find_opt tbl k with
+    | Some i -> n_of_int i
+    | None -> incr fresh; Hashtbl.replace tbl k !fresh; n_of_int !fresh in
+  let rec nat_of_int k = if k <= 0 then Datatypes.O else Datatypes.S (nat_of_int (k - 1)) in
+  match Scan.scan_text (Jfront.bytes_of_string text) with
+  | Util.Ok (Scan.STokens ts) ->
+    (match ParseExpr.parse_program_text (nat_of_int (80 + 40 * Stdlib.List.length ts)) ts with
+     | ParseExpr.POk (up, _) ->
+       let p = UAst.uprogram_of_parsed up (Jfront.bytes_of_string "main") in
+       let out = ref [] in
+       Stdlib.List.iter (fun f ->
+         match f with
+         | Sx.L [Sx.Atom "arg"; i; t] ->
+           let r = LitParse.literal_parse_program intern (nat_of_int 400) p (n_of_int (int_of_string (Sx.atom i)))
+                     (Jfront.bytes_of_string (Sx.bytes t)) in
+           out := (match r with
+             | Infer.COk l -> Printf.sprintf "(ok %s)" (Jlit.fmt_lit l)
+             | Infer.CErr _ -> "(err)"
+             | Infer.COutside -> "(outside)"
+             | Infer.CNoFuel -> "(nofuel)") :: !out
+         | _ -> ()) (Stdlib.List.tl (Stdlib.List.tl (Sx.list job)));
+       String.concat " " (Stdlib.List.rev !out)
+     | _ -> "(program-parse-failed)")
+  | _ -> "(program-scan-failed)"
